@@ -320,7 +320,8 @@ def strategy(focus="membership"):
                 "members": members, "kills": kills, "faults": faults, "env": env,
                 "run_for": draw(st.sampled_from([3.0, 5.0])),
                 "lat": draw(st.lists(st.sampled_from([0.0005, 0.001, 0.004, 0.015]), min_size=1, max_size=4)),
-                "chunks": [0], "rng_seed": draw(st.integers(0, 2 ** 31))}
+                "chunks": [0], "rng_seed": draw(st.integers(0, 2 ** 31)),
+                "debug_log": draw(st.integers(0, 7)) == 0}
     return cases()
 
 
